@@ -73,6 +73,45 @@ def _same(r1, r2):
     return np.array_equal(np.asarray(r1), np.asarray(r2))
 
 
+def _overwrite(r):
+    """overwrite, in place, everything mutable that a call returned (arrays inside tuples / lists included);
+    returns True when something was overwritten.  Tuples of ints, Python / numpy scalars are immutable and left alone."""
+    if isinstance(r, (tuple, list)):
+        hit = [_overwrite(x) for x in r]
+        return any(hit)
+    if isinstance(r, np.ndarray) and r.ndim >= 1 and r.size and r.flags.writeable:
+        if r.dtype.kind in 'ui':
+            np.bitwise_xor(r, 1, out=r)
+        elif r.dtype.kind == 'b':
+            np.logical_not(r, out=r)
+        else:
+            r += 1
+        return True
+    return False
+
+
+def _deepcopy(r):
+    if isinstance(r, (tuple, list)):
+        return type(r)(_deepcopy(x) for x in r)
+    return r.copy() if isinstance(r, np.ndarray) else r
+
+
+def from_with_history(sp, t):
+    """`from_int_tuple(t)` as a caller with a history sees it: an earlier result (of the prefix tuple and of `t` itself) has
+    been overwritten in place by its owner; the call must still return the matrix of `t`.  Returns a private copy."""
+    t = tuple(t)
+    if len(t) >= 4:
+        _overwrite(sp.from_int_tuple(t[:-2]))
+    M = sp.from_int_tuple(t)
+    snap = M.copy()
+    _overwrite(M)
+    M2 = sp.from_int_tuple(t)
+    if M2 is M or not np.array_equal(M2, snap):
+        raise Aliasing(f'result aliasing: from_int_tuple({t}) returns {mstr(M2)} after the array returned by the previous identical '
+                       f'call was overwritten in place (first answer {mstr(snap)}): a shared / cached array is handed out')
+    return snap
+
+
 def pure_call(f, *arrays, alt_dtypes=()):
     """call f(*arrays) the way a careful user may: the arguments must come back bit-identical (no aliasing), a second call on the
     very same objects and a call on non-contiguous views must give the same result, and integer dtypes the clean tree accepts
@@ -94,7 +133,14 @@ def pure_call(f, *arrays, alt_dtypes=()):
         if not _same(np.asarray(r1).astype(np.int64) if not isinstance(r1, (tuple, list)) else [np.asarray(x).astype(np.int64) for x in r1],
                      np.asarray(r4).astype(np.int64) if not isinstance(r4, (tuple, list)) else [np.asarray(x).astype(np.int64) for x in r4]):
             raise Aliasing(f'dtype {np.dtype(dt).name} gives a different result than uint8')
-    return r1
+    # result side: the caller owns what it got — overwrite every returned array in place, call again on fresh copies of the
+    # arguments, and require the first answer (a memoised / shared result object would now come back corrupted)
+    snap = _deepcopy(r1)
+    if _overwrite(r1):
+        r5 = f(*[sn.copy() for (sn, _, _) in snaps])
+        if not _same(r5, snap):
+            raise Aliasing('result aliasing: after the returned array(s) were overwritten in place, the same call returns a different value')
+    return snap
 
 
 INT_DTYPES = (np.int64, np.int32, np.uint16)   # accepted by get_inner_product / transvection / find_transvection / inverse on the clean tree
@@ -135,6 +181,23 @@ def impl_op(op):
     if k == 'tv':
         hs = [] if t[4] == '-' else [varr(h) for h in t[4].split(';')]
         return guarded(lambda: vstr(pure_call(sp.transvection, varr(t[3]), *hs, alt_dtypes=INT_DTYPES)))
+    if k in ('tvb', 'ipb'):
+        shape = tuple(int(x) for x in t[3].split('x'))
+        X = np.array([[int(c) for c in r] for r in t[4].split(';')], dtype=np.uint8).reshape(shape)
+        if k == 'tvb':
+            hs = [] if t[5] == '-' else [varr(h) for h in t[5].split(';')]
+            def f():
+                Y = np.asarray(pure_call(sp.transvection, X, *hs, alt_dtypes=INT_DTYPES))
+                if Y.shape != X.shape:
+                    return f'shape {Y.shape} for input shape {X.shape}'
+                return ';'.join(vstr(r) for r in Y.reshape(-1, 2 * n))
+            return guarded(f)
+        def f():
+            Y = np.asarray(pure_call(sp.get_inner_product, X, varr(t[5]), alt_dtypes=INT_DTYPES))
+            if Y.shape != X.shape[:-1]:
+                return f'shape {Y.shape} for input shape {X.shape}'
+            return ''.join(str(int(b)) for b in Y.reshape(-1))
+        return guarded(f)
     if k == 'find':
         def f():
             r = pure_call(sp.find_transvection, varr(t[3]), varr(t[4]), alt_dtypes=INT_DTYPES)
@@ -143,7 +206,7 @@ def impl_op(op):
     if k == 'from':
         def f():
             tt = tuple(int(x) for x in t[3].split(';'))
-            M = sp.from_int_tuple(tt)
+            M = from_with_history(sp, tt)
             # the same tuple given as np.int64 entries / as a list / as an int64 array
             alts = [list(tt), np.array(tt, dtype=object)]
             if max(tt) < 2 ** 62:
@@ -158,6 +221,11 @@ def impl_op(op):
             vals = [int(x) for x in t[3].split(';')]
             rr = ScriptedRandom(vals)
             M = numqi.random.rand_SpF2(n, seed=rr)
+            snapM = M.copy()
+            _overwrite(M)
+            if not np.array_equal(numqi.random.rand_SpF2(n, seed=ScriptedRandom(vals)), snapM):
+                raise Aliasing('result aliasing: rand_SpF2 with the same draws returns a different matrix after its first result was overwritten in place')
+            M = snapM
             t2 = numqi.random.rand_SpF2(n, return_kind='int_tuple', seed=ScriptedRandom(vals))
             if rr.calls != [(0, b - 1) for b in bases(n)] or rr.values or tuple(t2) != tuple(vals):
                 return f'draws requested {rr.calls}, tuple returned {t2}'
@@ -242,12 +310,15 @@ def _job(args):
     sp = numqi.group.spf2
     ops, impl, imgs, bad = [], [], [], []
     L = lam(n)
-    for idx in idxs:
+    history_all = len(idxs) <= 8000
+    for pos, idx in enumerate(idxs):
         t = tuple_of_index(n, idx)
-        M = guarded(lambda: sp.from_int_tuple(t))
+        # result-side history (every tuple of the small sweeps, the first 150 of every chunk of the large one): earlier results of
+        # the prefix tuple and of `t` are overwritten in place, then `t` is requested again
+        M = guarded((lambda: from_with_history(sp, t)) if (history_all or pos < 150) else (lambda: sp.from_int_tuple(t)))
         ops.append(f'C09 from {n} {tstr(t)}')
         if isinstance(M, str):
-            impl.append(M); bad.append((t, 'from-raises', 'from_int_tuple raised ' + M)); continue
+            impl.append(M); bad.append((t, 'aliasing' if M.startswith('aliasing') else 'from-raises', 'from_int_tuple: ' + M)); continue
         ms = mstr(M)
         impl.append(ms); imgs.append(ms)
         ops.append(f'C09 to {n} {ms}')
@@ -291,7 +362,7 @@ def tuples_through_both(ctx, n, idxs, procs=1):
 
 def report_side_effects(ctx, ops, impl):
     """aliasing / dtype violations found by `pure_call` are failures of the property's input contract with a concrete input"""
-    for op, out in zip(ops, impl):
+    for op, out in sorted(zip(ops, impl), key=lambda x: len(x[0])):   # shortest witness first
         if 'aliasing:' in out:
             ctx.fail('aliasing', f'{op}: {out}', dict(op='side-effect', line=op, observed=out))
         elif out.startswith('dtype') or '|dtype' in out:
@@ -353,6 +424,36 @@ def gen_ops(ctx):
                 return ''.join(a)
             v, w = sparse(), sparse()
         ops.append(f'C09 find {n} {v} {w}')
+    # batched calls (`x.ndim >= 2` is documented for transvection / get_inner_product): vector, list of vectors, stack of
+    # matrices, 2-d grid of vectors, 4-d; the model sees the array flattened to its rows
+    def rows_str(X, m):
+        return ';'.join(vstr(r) for r in np.asarray(X).reshape(-1, m))
+    def batch_ops(n, X, hs):
+        shp = 'x'.join(str(d) for d in X.shape)
+        out = [f'C09 tvb {n} {shp} {rows_str(X, 2 * n)} {";".join(hs) if hs else "-"}']
+        out.append(f'C09 ipb {n} {shp} {rows_str(X, 2 * n)} {hs[0] if hs else rand_vec(rng, 2 * n)}')
+        return out
+    for n in (1, 2):
+        # the demo case: the whole image set of from_int_tuple as one stack, every generating transvection
+        imgs = [guarded(lambda: sp.from_int_tuple(t)) for t in (all_tuples(n) if n == 1 else [rand_tuple(rng, 2) for _ in range(12)])]
+        imgs = [M for M in imgs if not isinstance(M, str)]
+        if imgs:
+            stack = np.stack(imgs)
+            for h in nonzero_vecs(n):
+                ops += batch_ops(n, stack, [h])
+    for i in range(60 if quick else 900):
+        n = rng.choice([1, 1, 2, 2, 3, 3, 4, 5, 8])
+        m = 2 * n
+        kind = i % 6
+        k, l = rng.choice([1, 2, 3, 5]), rng.choice([1, 2, 3, m + 1])
+        shape = [(m,), (k, m), (k, m, m), (k, l, m), (m, m), (2, 1, 2, m)][kind]
+        X = np.array([rng.randint(0, 1) for _ in range(int(np.prod(shape)))], dtype=np.uint8).reshape(shape)
+        if kind == 2 and rng.random() < 0.7:   # a stack of group elements
+            Ms = [guarded(lambda: sp.from_int_tuple(rand_tuple(rng, n))) for _ in range(k)]
+            if not any(isinstance(M, str) for M in Ms):
+                X = np.stack(Ms)
+        hs = [rand_vec(rng, m) for _ in range(rng.randint(0, 3))]
+        ops += batch_ops(n, X, hs)
     # sizes around the machine-word boundary: round trips for n = 31, 32, 33, 40 (2n crosses 64; bases cross 2^63)
     for n in (31, 32, 33, 40):
         for i in range(2 if quick else 6):
@@ -477,6 +578,46 @@ def brute_sp_count(n):
     return cnt
 
 
+def closure_probe(ctx, sp, n, hs):
+    """`transvection(stack, h)` on the stack (order, 2n, 2n) of all images of from_int_tuple: same as element by element, every
+    element symplectic, and the set of images is mapped onto itself (the group is generated by transvections)"""
+    tl = list(all_tuples(n))
+    imgs = [guarded(lambda: sp.from_int_tuple(t)) for t in tl]
+    if any(isinstance(M, str) for M in imgs):
+        return  # reported by part 1
+    stack = np.stack(imgs)
+    image = {x.tobytes() for x in stack}
+    L = lam(n).astype(np.uint8)
+    for h in hs:
+        hv = varr(h)
+        rep = dict(op='transvection_batch', n=n, h=h)
+        moved = guarded(lambda: np.asarray(sp.transvection(stack.copy(), hv.copy())))
+        if isinstance(moved, str) or moved.shape != stack.shape:
+            ctx.fail('transvection-batch', f'transvection(stack of shape {stack.shape}, h={h}) -> {moved if isinstance(moved, str) else moved.shape}', rep)
+            continue
+        ref = np.stack([sp.transvection(x.copy(), hv.copy()) for x in stack])
+        if not np.array_equal(moved, ref):
+            k = int(np.nonzero((moved != ref).reshape(len(stack), -1).any(axis=1))[0][0])
+            ctx.fail('transvection-batch', f'n={n} h={h}: transvection on the stack of all {len(stack)} images differs from element-wise transvection '
+                     f'at element {k} = from_int_tuple({tl[k]}) = {mstr(stack[k])}: stack call gives {mstr(moved[k])}, single call {mstr(ref[k])}',
+                     dict(rep, int_tuple=list(tl[k]), element=mstr(stack[k])))
+            continue
+        form = (moved.astype(np.int64) @ L.astype(np.int64) @ moved.astype(np.int64).transpose(0, 2, 1)) % 2
+        if not np.array_equal(form, np.broadcast_to(L, form.shape)):
+            ctx.fail('transvection-batch', f'n={n} h={h}: T_h(image) does not preserve the form', rep)
+        elif {x.tobytes() for x in moved} != image:
+            ctx.fail('transvection-batch', f'n={n} h={h}: the image set of from_int_tuple is not closed under T_h', rep)
+        else:
+            ctx.probe_ok(('closure', n, h))
+        # same sweep for get_inner_product: the stack against h, one bit per row
+        ipb = guarded(lambda: np.asarray(sp.get_inner_product(stack.copy(), hv.copy())))
+        ipr = np.array([[int(sp.get_inner_product(r, hv)) for r in x] for x in stack])
+        if isinstance(ipb, str) or ipb.shape != stack.shape[:-1] or not np.array_equal(ipb.astype(np.int64), ipr):
+            ctx.fail('inner-product-batch', f'n={n} h={h}: get_inner_product on the stack differs from row-by-row calls', dict(rep, op='inner_product_batch'))
+        else:
+            ctx.probe_ok()
+
+
 def _probe_body(ctx):
     """direct evaluation of the property statement on the real code, independent of the model"""
     import numqi
@@ -488,9 +629,9 @@ def _probe_body(ctx):
         seen = {}
         I = np.eye(2 * n, dtype=np.int64)
         for t in all_tuples(n):
-            M = guarded(lambda: sp.from_int_tuple(t))
+            M = guarded(lambda: from_with_history(sp, t))
             if isinstance(M, str):
-                ctx.fail('from-raises', f'from_int_tuple({t}) raised {M}', dict(op='from_int_tuple', n=n, int_tuple=list(t))); continue
+                ctx.fail('aliasing' if M.startswith('aliasing') else 'from-raises', f'from_int_tuple({t}): {M}', dict(op='from_int_tuple', n=n, int_tuple=list(t))); continue
             Mi = M.astype(np.int64)
             if not np.array_equal((Mi @ L @ Mi.T) % 2, L):
                 ctx.fail('image-symplectic', f'from_int_tuple({t}) is not symplectic', dict(op='from_int_tuple', n=n, int_tuple=list(t)))
@@ -515,6 +656,9 @@ def _probe_body(ctx):
             ctx.fail('image-count', f'n={n}: {len(seen)} distinct images, get_number order {sp.get_number(n, "order")}, |Sp| by enumeration {want}', dict(op='count', n=n))
         else:
             ctx.probe_ok(('order', n))
+    # 1b. closure of the image set under every generating transvection, the whole stack pushed through in one call
+    for n in (1, 2):
+        closure_probe(ctx, sp, n, list(nonzero_vecs(n)))
     # 2. get_number consistency for larger n
     for n in range(1, 12):
         b = sp.get_number(n, 'base')
@@ -562,9 +706,9 @@ def _probe_body(ctx):
         else:
             ctx.probe_ok()
         t = rand_tuple(rng, n)
-        M = guarded(lambda: sp.from_int_tuple(t))
+        M = guarded(lambda: from_with_history(sp, t))
         if isinstance(M, str):
-            ctx.fail('from-raises', f'from_int_tuple({t}) raised {M}', dict(op='from_int_tuple', n=n, int_tuple=list(t))); continue
+            ctx.fail('aliasing' if M.startswith('aliasing') else 'from-raises', f'from_int_tuple({t}): {M}', dict(op='from_int_tuple', n=n, int_tuple=list(t))); continue
         Mi = M.astype(np.int64); L = lam(n); I = np.eye(2 * n, dtype=np.int64)
         if not np.array_equal((Mi @ L @ Mi.T) % 2, L):
             ctx.fail('image-symplectic', f'from_int_tuple({t}) is not symplectic', dict(op='from_int_tuple', n=n, int_tuple=list(t)))
@@ -611,8 +755,10 @@ def _search_body(ctx, hints):
                     ctx.fail('find_transvection', f'find_transvection({t[3]},{t[4]}) does not map v0 to v1', dict(op='find_transvection', n=n, v0=t[3], v1=t[4]))
         elif k == 'from':
             tt = tuple(int(x) for x in t[3].split(';'))
-            M = guarded(lambda: sp.from_int_tuple(tt))
-            if isinstance(M, str) or not is_sp(M):
+            M = guarded(lambda: from_with_history(sp, tt))
+            if isinstance(M, str) and M.startswith('aliasing'):
+                ctx.fail('aliasing', f'from_int_tuple({tt}): {M}', dict(op='from_int_tuple', n=n, int_tuple=list(tt)))
+            elif isinstance(M, str) or not is_sp(M):
                 ctx.fail('image-symplectic', f'from_int_tuple({tt}) is not symplectic / raised', dict(op='from_int_tuple', n=n, int_tuple=list(tt)))
             else:
                 back = guarded(lambda: sp.to_int_tuple(M))
@@ -632,12 +778,33 @@ def _search_body(ctx, hints):
                 tt = guarded(lambda: sp.to_int_tuple(M))
                 if isinstance(tt, str) or not np.array_equal(sp.from_int_tuple(tuple(int(x) for x in tt)), M):
                     ctx.fail('to-from-roundtrip', f'from_int_tuple(to_int_tuple(M)) != M for M={t[3]}', dict(op='to_int_tuple', n=n, mat=t[3]))
+        elif k == 'tvb':
+            shape = tuple(int(x) for x in t[3].split('x'))
+            X = np.array([[int(c) for c in r] for r in t[4].split(';')], dtype=np.uint8).reshape(shape)
+            hs = [] if t[5] == '-' else [varr(h) for h in t[5].split(';')]
+            Y = guarded(lambda: np.asarray(sp.transvection(X.copy(), *hs)))
+            ref = np.array([sp.transvection(r.copy(), *hs) for r in X.reshape(-1, 2 * n)]).reshape(shape)
+            if isinstance(Y, str) or Y.shape != X.shape or not np.array_equal(Y, ref):
+                ctx.fail('transvection-batch', f'transvection on an array of shape {shape} (rows {t[4]}, h_list {t[5]}) is not the row-by-row map: '
+                         f'{Y if isinstance(Y, str) else rows_of(Y, 2 * n)} instead of {rows_of(ref, 2 * n)}', dict(op='transvection_rows', n=n, shape=t[3], rows=t[4], hs=t[5]))
+        elif k == 'ipb':
+            shape = tuple(int(x) for x in t[3].split('x'))
+            X = np.array([[int(c) for c in r] for r in t[4].split(';')], dtype=np.uint8).reshape(shape)
+            w = varr(t[5])
+            Y = guarded(lambda: np.asarray(sp.get_inner_product(X.copy(), w)))
+            ref = np.array([int(sp.get_inner_product(r, w)) for r in X.reshape(-1, 2 * n)]).reshape(shape[:-1])
+            if isinstance(Y, str) or Y.shape != ref.shape or not np.array_equal(Y.astype(np.int64), ref):
+                ctx.fail('inner-product-batch', f'get_inner_product on an array of shape {shape} (rows {t[4]}, v1 {t[5]}) is not the row-by-row map', dict(op='inner_product_rows', n=n, shape=t[3], rows=t[4], w=t[5]))
         elif k == 'tv':
             x = varr(t[3])
             hs = [] if t[4] == '-' else [varr(h) for h in t[4].split(';')]
             y = sp.transvection(x, *hs)
             if not np.array_equal(sp.transvection(y, *hs[::-1]), x):
                 ctx.fail('transvection', f'transvections {t[4]} not undone by the reversed list on {t[3]}', dict(op='transvection', n=n, x=t[3], hs=t[4]))
+
+
+def rows_of(Y, m):
+    return ';'.join(vstr(r) for r in np.asarray(Y).reshape(-1, m))
 
 
 def probe(ctx):
@@ -674,6 +841,23 @@ def replay(ctx, payload):
         hints = [dict(op=f"C09 to {r['n']} {r['mat']}")]
     elif op == 'transvection' and 'hs' in r:
         hints = [dict(op=f"C09 tv {r['n']} {r['x']} {r['hs']}")]
+    elif op == 'transvection_rows':
+        hints = [dict(op=f"C09 tvb {r['n']} {r['shape']} {r['rows']} {r['hs']}")]
+    elif op == 'inner_product_rows':
+        hints = [dict(op=f"C09 ipb {r['n']} {r['shape']} {r['rows']} {r['w']}")]
+    elif op in ('transvection_batch', 'inner_product_batch'):
+        try:
+            closure_probe(ctx, sp, r['n'], [r['h']])
+        except Exception as e:  # noqa: BLE001
+            ctx.fail('implementation-raised', f'{type(e).__name__}: {e}', r)
+        hints = None
+    elif op in ('side-effect', 'dtype') and 'line' in r:
+        out = impl_op(r['line'])
+        report_side_effects(ctx, [r['line']], [out])
+        model = common.run_model([r['line']])
+        if model and model[0] != out:
+            ctx.fail('aliasing' if 'aliasing:' in out else 'correspondence', f"{r['line']}: implementation {out[:200]} model {model[0][:200]}", r)
+        hints = None
     elif op == 'rand_SpF2':
         n, seed = r['n'], r['seed']
         def f():
@@ -684,7 +868,7 @@ def replay(ctx, payload):
             ctx.fail('rand_SpF2', f'rand_SpF2(n={n}, seed={seed}) is not the symplectic matrix of its in-range tuple', r)
     if hints:
         search(ctx, hints)
-    elif op != 'rand_SpF2':
+    elif hints is not None and op != 'rand_SpF2':
         probe(ctx)
     hit = [f for f in ctx.failures if f['key'] == payload.get('key')] or ctx.failures
     if hit:
